@@ -42,7 +42,7 @@ class Model:
     """one answer set"""
 
     atoms: frozenset
-    shown: frozenset
+    shown: frozenset  # terms displayed by `#show t : body.` statements (atoms shown by default are not included)
     cost: tuple  # sorted tuple of (priority, value) with value != 0
 
 
@@ -112,7 +112,7 @@ def solve(
 
     def on_model(m: clingo.Model) -> bool:
         cost = tuple(sorted((p, c) for p, c in zip(m.priority, m.cost) if c != 0))
-        models.append(Model(frozenset(m.symbols(atoms=True)), frozenset(m.symbols(shown=True)), cost))
+        models.append(Model(frozenset(m.symbols(atoms=True)), frozenset(m.symbols(terms=True)), cost))
         return len(models) <= limit
 
     try:
